@@ -40,6 +40,11 @@ func corpus() [][]string {
 		{"tp store wrapped", "tp init none", "tp compute new 5 -", "tp get -", "tp del -", "tp compute new 6 -", "tp reopen", "tp get -"},
 		{"ts store fmt", "ts get 1 -", "ts has 1 -", "ts set 1 10 -", "ts get 1 -", "ts del 1 -", "ts get 1 -", "ts get 1 kv1", "ts iter - fwd 0 kv1"},
 		{"ts set 65535 1 -", "ts set 1 18446744073709551615 -", "ts get 65535 -", "ts has 65535 -", "ts del 65535 -", "ts get 1 -", "ts del 1 -"},
+		// zero-length encodings: the value 0 is stored as the empty byte string; the key is present all the same
+		{"tv values zempty", "tv init none", "tv set 0 -", "tv has -", "tv get -", "tv reopen", "tv has -", "tv get -", "tv compute add 1 -", "tv get -", "tv set 0 -",
+			"tv reopen", "tv compute incx 9 -", "tv reopen", "tv compute nc -", "tv del -", "tv get -", "tv has -"},
+		{"tv values zempty", "tv init -", "tv get -", "tv has -", "tv compute ncx 5 -", "tv compute cap 0 -", "tv set 0 kv1", "tv set 0 -", "tv compute const 0 -", "tv reopen", "tv get -"},
+		{"ts values zempty", "ts set 1 0 -", "ts has 1 -", "ts get 1 -", "ts iter - fwd 0 -", "ts iterk - fwd 0 -", "ts set 2 5 -", "ts set 2 0 -", "ts get 2 -", "ts del 1 -", "ts get 1 -", "ts iter - bwd 0 -"},
 		// variable-length key codec: the encoding of key 1 ([01]) is a prefix of the encodings of 256..511 ([01 xx]);
 		// Delete / Has / Get / Set of the short key must not touch or see the long ones, and vice versa
 		{"ts keys var", "ts set 1 10 -", "ts set 256 20 -", "ts set 257 30 -", "ts set 2 40 -", "ts has 1 -", "ts get 1 -", "ts del 1 -", "ts iter - fwd 0 -",
@@ -85,6 +90,20 @@ func exhaustiveTV() [][]string {
 					}
 					c = append(c, pre...)
 					c = append(c, "tv "+op+" "+ft, "tv get -", "tv has -", "tv reopen", "tv get -")
+					out = append(out, c)
+				}
+			}
+		}
+	}
+	// zero-length encodings: the key holds the empty byte string (= the value 0) or nothing; writes of 0 and of 5
+	zops := []string{"get", "has", "set 0", "set 5", "del", "compute const 0", "compute add 1", "compute nc", "compute fail", "compute incx 0", "compute cap 0", "compute boom"}
+	for _, in := range []string{"none", "-"} {
+		for _, pre := range preludes {
+			for _, op := range zops {
+				for _, ft := range []string{"-", "kv1", "kv2", "dec", "enc"} {
+					c := []string{"tv values zempty", "tv init " + in}
+					c = append(c, pre...)
+					c = append(c, "tv "+op+" "+ft, "tv get -", "tv has -", "tv reopen", "tv get -", "tv has -")
 					out = append(out, c)
 				}
 			}
@@ -213,6 +232,12 @@ func genTV(rng *hx.Rng) []string {
 	if rng.Chance(2, 5) {
 		ops = append([]string{"tv store " + hx.Pick(rng, []string{"wrapped", "fmt"})}, ops...)
 	}
+	vals := tvValues
+	if rng.Chance(1, 4) {
+		// the value 0 has a zero-length encoding; make it frequent
+		ops = append([]string{"tv values zempty"}, ops...)
+		vals = append([]string{"0", "0", "0"}, tvValues...)
+	}
 	n := rng.Range(6, 22)
 	for i := 0; i < n; i++ {
 		ft := genTVFaults(rng)
@@ -222,7 +247,7 @@ func genTV(rng *hx.Rng) []string {
 		case x < 32:
 			ops = append(ops, "tv has "+ft)
 		case x < 47:
-			ops = append(ops, fmt.Sprintf("tv set %s %s", hx.Pick(rng, tvValues), ft))
+			ops = append(ops, fmt.Sprintf("tv set %s %s", hx.Pick(rng, vals), ft))
 		case x < 57:
 			ops = append(ops, "tv del "+ft)
 		case x < 92:
@@ -266,6 +291,9 @@ func genTS(rng *hx.Rng) []string {
 	}
 	if rng.Chance(2, 5) {
 		ops = append(ops, "ts store "+hx.Pick(rng, []string{"wrapped", "fmt"}))
+	}
+	if rng.Chance(1, 4) {
+		ops = append(ops, "ts values zempty") // value 0 is stored with zero length
 	}
 	if rng.Chance(2, 5) {
 		// keys 1, 2 are then prefixes of 256, 257 / 513; rawKeys 01 and 0100 are typed keys, 0001ff and 0002 do not decode
